@@ -308,7 +308,7 @@ def body(case, stats):
 
 def gen_opts():
     return gen.GenOpts(big_sizes=False, min_decls=2, max_decls=8, allow_unset=False, aligned_greedy=False,
-                       const_ref_bias=4, avoid=common.avoid_set(ID))
+                       const_ref_bias=4, avoid=common.avoid_set(ID), enum_aliases=False)
 
 
 def worker(widx, seed, tier, stats):
